@@ -15,7 +15,8 @@ Definition errclass_eqb (a b : errclass) : bool :=
 Inductive impl_prog :=
 | IErr (k : errclass)                    (* create_program raised *)
 | INone                                  (* create_program returned None *)
-| IProg (loopd wfd pieces : Q).          (* Loop.duration, to_waveform(program).duration, sum over leaves x multiplicity *)
+| IProg (loopd : Q) (wfd : option Q) (pieces : Q).
+    (* Loop.duration, to_waveform(program).duration (None: to_waveform raised), sum over leaves x multiplicity *)
 
 Inductive case :=
 | CTpl (p : pt) (e : env) (sym_impl : option Q) (prog : impl_prog)
@@ -40,7 +41,7 @@ Definition check_corr (c : case) : bool :=
       | Ok [] => match prog with INone => true | _ => false end
       | Ok kids =>
           match prog with
-          | IProg a b c => Qeq_bool a (total kids) && oq_eqb (Some b) (wf_duration (Node 1 kids))
+          | IProg a b c => Qeq_bool a (total kids) && oq_eqb b (wf_duration (Node 1 kids))
                            && Qeq_bool c (sum_pieces 1 (Node 1 kids))
           | _ => false
           end
@@ -69,14 +70,14 @@ Definition check_spec (c : case) : bool :=
           match prog with
           | IErr _ => true
           | INone => if sym_exact then oq_eqb sym_impl (Some 0) else true
-          | IProg a b c => Qeq_bool a b && Qeq_bool a c && (if sym_exact then oq_eqb sym_impl (Some a) else true)
+          | IProg a b c => oq_eqb b (Some a) && Qeq_bool a c && (if sym_exact then oq_eqb sym_impl (Some a) else true)
           end
       | Some d =>
           let symok := if sym_exact then oq_eqb sym_impl (Some d) else true in
           match prog with
           | IErr _ => true
           | INone => Qeq_bool d 0 && symok
-          | IProg a b c => Qeq_bool a d && Qeq_bool b d && Qeq_bool c d && symok
+          | IProg a b c => Qeq_bool a d && oq_eqb b (Some d) && Qeq_bool c d && symok
           end
       end
   | CRange a b s impl =>
